@@ -19,7 +19,7 @@ from typing import Any, Callable
 from ..absint import Raised, Record, Unsupported
 from ..index import AnchorError, FuncNode
 from ..selftest import Twin
-from .c28 import IN_BLOCKS_OLD, IN_TABLE_ROWS, FakeConn, FakeDT, MiniDB, ModelObject, Runner, SqlUnsupported, World, _bind_migrations, model_unsupported, in_blocks_table_driven
+from .c28 import IN_BLOCKS_OLD, IN_TABLE_ROWS, FakeConn, FakeDT, MiniDB, ModelObject, Runner, SqlUnsupported, World, _bind_migrations, model_unsupported, event_insert_as_constant, in_blocks_table_driven
 
 EXPLANATION = (
     "All rules interpret the AST of the store classes over finite domains (no repo code runs). The oracle `spec` is the statement: a handler "
@@ -636,6 +636,7 @@ _PA = "packages/llama-agents-server/src/llama_agents/server/_store/abstract_work
 
 TWINS: list[Twin] = [
     # ---- R1: sqlite filters driven by a module-level table, the query fields read with getattr()
+    Twin("benign: sqlite `_connect` returns early after yielding the persistent connection; event INSERT text in a module-level constant", _PS, *event_insert_as_constant(), None),
     Twin("benign: sqlite IN filters driven by a module-level (column, attribute) table read with getattr", _PS, IN_BLOCKS_OLD, in_blocks_table_driven(), None),
     Twin("benign: getattr with a default on a field that exists", _PS, IN_BLOCKS_OLD, in_blocks_table_driven(read="getattr(query, attr_name, None)"), None),
     Twin("sqlite table-driven: run_id values matched against the handler_id column", _PS, IN_BLOCKS_OLD,
